@@ -720,6 +720,12 @@ func runC19(c *Cfg) {
 			}
 		}
 	}
+	for _, v := range []int{2, 5} {
+		for _, rt := range []string{"node-plain-funcs", "node-nodeoptions", "batch-plain-funcs", "batch-nodeoptions", "base-node"} {
+			rcs = append(rcs, &RouteCase{Family: "route-twins", Kind: "user-option-factory", Val: v, Route: rt})
+		}
+		rcs = append(rcs, &RouteCase{Family: "route-twins", Kind: "panicking-exec", Val: v - 1, Route: "option-vs-builder"})
+	}
 	for i, rc := range rcs {
 		if !c.Mine(i) {
 			continue
